@@ -10,6 +10,7 @@ import (
 	"math"
 	"os"
 	"path/filepath"
+	"runtime/debug"
 	"sort"
 	"strings"
 	"sync"
@@ -31,7 +32,12 @@ import (
 	"verif/vt"
 )
 
-func TestMain(m *testing.M) { vt.Main(m) }
+func TestMain(m *testing.M) {
+	// Every reader allocates a 512 KiB buffer while the live heap stays tiny:
+	// with the default GC percentage a collection runs every few cases.
+	debug.SetGCPercent(1000)
+	vt.Main(m)
+}
 
 // Case is one replayable C11 case.  Kind "bytes": Base (a valid encoding or a
 // literal input) is mutated by Script (Splice is the partner input of splice
@@ -392,6 +398,57 @@ func hostileBases() []hostileBase {
 }
 
 var hostilePool = hostileBases()
+
+// zngChains is a ZNG stream of count sections, each a chain of n nested
+// container typedefs over a different (container kind, primitive) pair, one
+// null value of the deepest type and an end-of-stream marker.
+func zngChains(n, count int) []byte {
+	var out []byte
+	prims := []int{0, 1, 2, 3, 6, 7, 8, 9, 12, 13, 14, 15, 16, 23, 24, 25, 26, 27, 28, 29}
+	kinds := []byte{1, 2, 6}
+	c := 0
+	for _, k := range kinds {
+		for _, p := range prims {
+			if c >= count {
+				return out
+			}
+			c++
+			var body []byte
+			for i := 0; i < n; i++ {
+				body = append(body, k)
+				id := p
+				if i > 0 {
+					id = 30 + i - 1
+				}
+				body = binary.AppendUvarint(body, uint64(id))
+			}
+			out = append(out, byte(len(body)&0xf))
+			out = binary.AppendUvarint(out, uint64(len(body)>>4))
+			out = append(out, body...)
+			var vb []byte
+			vb = binary.AppendUvarint(vb, uint64(30+n-1))
+			vb = append(vb, 0)
+			out = append(out, 0x10|byte(len(vb)&0xf))
+			out = binary.AppendUvarint(out, uint64(len(vb)>>4))
+			out = append(out, vb...)
+			out = append(out, 0xff)
+		}
+	}
+	return out
+}
+
+// jsonDeep is count JSON/ZSON values, each depth nested arrays around a record
+// with a field name of its own (so that no two values share a type).
+func jsonDeep(depth, count int) []byte {
+	var b bytes.Buffer
+	for i := 0; i < count; i++ {
+		b.Write(bytes.Repeat([]byte("["), depth))
+		fmt.Fprintf(&b, `{"k%d":1}`, i)
+		b.Write(bytes.Repeat([]byte("]"), depth))
+		b.WriteByte('\n')
+	}
+	return b.Bytes()
+}
 
 // zngChain is a ZNG stream defining n nested array types (each typedef refers
 // to the previous one) followed by one null value of the deepest type.
